@@ -1776,10 +1776,17 @@ class MindsDBParser(Parser):
     def string(self, p):
         return p[0]
 
-    @_('id', 'dquote_string')
+    @_('id')
     def identifier(self, p):
         value = p[0]
         return Identifier.from_path_str(value)
+
+    @_('dquote_string')
+    def identifier(self, p):
+        # a double-quoted name is one part: dots inside the quotes do not split it (as in identifier DOT dquote_string)
+        if p[0] == '':
+            raise ParsingException('Empty name in identifier')
+        return Identifier(parts=[p[0]])
 
     @_('PARAMETER')
     def parameter(self, p):
